@@ -49,7 +49,25 @@ fn entry_size(namelen: usize, plus: bool) -> usize {
 
 fn make_dir(dir: &Path, r: &mut Rng, n: usize) {
     fs::create_dir_all(dir).unwrap();
+    // names that merely begin with dots ("..data", "...", ".x") are ordinary entries; some directories hold
+    // a few of them, some nothing else (a getdents batch may then consist of dot-prefixed names only)
+    let dotty = match r.below(6) {
+        0 => 2,
+        1 => 1,
+        _ => 0,
+    };
     for i in 0..n {
+        if dotty > 0 && (dotty == 2 || r.chance(1, 2)) {
+            let name = match (i, r.below(3)) {
+                (0, _) => "...".to_string(),
+                (1, _) => "..data".to_string(),
+                (_, 0) => format!(".{:x}-", i),
+                (_, 1) => format!("..{:x}-{}", i, "y".repeat(r.below(20) as usize)),
+                _ => format!("...{:x}-", i),
+            };
+            fs::write(dir.join(&name), b"").unwrap();
+            continue;
+        }
         let len = match r.below(10) {
             0 => 255,
             1 => 1 + (i % 8),
